@@ -126,6 +126,10 @@ func From(input any) (Any, error) {
 		}
 		return value, nil
 	case *dtpb.Quantity:
+		if v.GetValue() == nil {
+			// the value is optional in FHIR; without it there is no System Quantity
+			return nil, fmt.Errorf("%w: Quantity without a value", ErrCantBeCast)
+		}
 		value, err := decimal.NewFromString(v.Value.Value)
 		if err != nil {
 			return nil, err
